@@ -141,7 +141,8 @@ def table():
     t["Debug"] = [T(s1), T(s2), T(n2), T(en), T("struct {S};", gens=["none"]), T("enum {S} {{}}", gens=["none"]),
                   T("struct {S}{G}{W} {{ @[debug(skip)] {F}: {C}, other: {C} }}"), T("struct {S}{G}(@[debug(\"{{}}\", _1)] {C}, u8){W};"),
                   T("@[debug(\"{{_0}}\")] " + s2), T("enum {S}{G}{W} {{ @[debug(\"{{_0:?}}!\")] {V}({C}), B {{ @[debug(ignore)] {F}: {C} }}, Cc }}"),
-                  T("@[debug(bound({C}: Clone))] " + s1)]
+                  T("@[debug(bound({C}: Clone))] " + s1), T("@[debug(\"x{{_0:?}}\",)] " + s1, note="trailing comma after the literal"),
+                  T("struct {S}{G}(@[debug(\"f\",)] {C}, u8){W};", note="trailing comma after a field-level literal")]
     for d, a in FMT.items():
         lst = [T(s1), T("struct {S}{G}{W} {{ {F}: {C} }}"), T("@[%s(\"{{_0}} {{_1:?}}\")] " % a + s2), T("@[%s(\"{{%s}}-{{}}\", other)] " % (a, "{Fl}") + n2),
                T("enum {S}{G}{W} {{ {V}({C}), @[%s(\"{{%s}} {{y}}\")] B {{ {F}: {C}, y: {C} }}, @[%s(\"c\")] Cc }}" % (a, "{Fl}", a)),
@@ -149,7 +150,11 @@ def table():
                T("@[%s(\"dflt\")] enum {S}{G}{W} {{ {V}({C}), @[%s(\"c\")] Cc }}" % (a, a)),
                T("@[%s(\"{{_0}}\")] @[%s(bound({C}: Clone))] " % (a, a) + s1),
                T("@[%s(\"u\")] union {S}{G}{W} {{ {F}: u8, other: PhantomData<{C}> }}" % a),
-               T("@[%s(\"unit\")] struct {S};" % a, gens=["none"])]
+               T("@[%s(\"unit\")] struct {S};" % a, gens=["none"]),
+               # trailing commas: after the arguments, and after a literal that has none
+               T("@[%s(\"x{{_0}}\",)] " % a + s1, note="trailing comma after the literal"),
+               T("@[%s(\"{{_0}} {{}}\", _1,)] " % a + s2, note="trailing comma after the arguments"),
+               T("enum {S}{G}{W} {{ @[%s(\"a\",)] {V}({C}), @[%s(\"c{{}}\", 1,)] Cc }}" % (a, a), note="trailing commas in variant attributes")]
         if d == "Display":
             lst += [T("struct {S};", gens=["none"]), T("enum {S} {{ {V}, Bb }}", gens=["none"]),
                     T("@[display(rename_all = \"snake_case\")] enum {S} {{ {V}, @[display(rename_all = \"UPPERCASE\")] Bb }}", gens=["none"]),
